@@ -408,7 +408,7 @@ func (p *probeRT) judge() {
 	w.mu.Lock()
 	w.probes["probe-"+p.p.Kind+"-"+p.p.Transport]++
 	if p.skipped != "" {
-		w.probes["probe-skipped"]++
+		w.probe("probe-skipped")
 	}
 	w.mu.Unlock()
 	if p.p.Kind == "hostile" || !p.started {
